@@ -93,6 +93,11 @@ class MSRun:
             h.close()
         self.world.close()
         self._sess.__exit__(*a)
+        # keep only the recorded history (hundreds of thousands of runs are kept in the thorough tier)
+        self.world = None
+        self.handles = None
+        self.cur = None
+        self._sess = None
 
     # ---------------------------------------------------------------- implementation side
     def stats(self):
@@ -565,7 +570,7 @@ def run_script(maxbuf, ntasks, flat_ops, quiesce=True):
         r.prefix_len = len(r.ops)
         if quiesce:
             r.quiesce()
-        return r
+    return r
 
 
 PROFILES = {
@@ -610,7 +615,7 @@ def random_case(rng: random.Random, nsteps: int, profile: str):
             r.do(c, t, h, d)
         r.prefix_len = len(r.ops)
         r.quiesce()
-        return r
+    return r
 
 
 def exhaustive_cases(maxbuf, ntasks: int, depth: int, alphabet, with_close=True):
@@ -749,8 +754,15 @@ def check(prop: str, tier: str) -> int:
         "which by _asyncio.py:605-607 never cancels a task whose waiter future is done)",
         "items are distinct integers chosen by the harness (the theorems assume fresh item ids, enforced by the model)",
     ]
+    import time as _time
+    stage_t = {}
+    _t0 = _time.time()
     proofs_ok = core.proof_stage(rep, f"props/{prop}.v")
+    stage_t["proofs_make_gate_print_assumptions"] = round(_time.time() - _t0, 1)
+    _t0 = _time.time()
     exe = core.build_driver("memstream", "MemStream")
+    stage_t["extraction_and_driver_build"] = round(_time.time() - _t0, 1)
+    _t0 = _time.time()
 
     rng = random.Random(core.seed() + (12 if prop == "C12" else 13))
     runs = []
@@ -771,11 +783,11 @@ def check(prop: str, tier: str) -> int:
     # exhaustive small scope
     if prop == "C12":
         alpha = {SENDNW, RECVNW, SEND, RECV, RESUME, CANCEL}
-        scopes = [(0, 2, 5), (1, 2, 5)] if tier == "quick" else [(0, 2, 7), (1, 2, 7), (0, 3, 6), (2, 2, 6)]
+        scopes = [(0, 2, 5), (1, 2, 4)] if tier == "quick" else [(0, 2, 7), (1, 2, 6), (0, 3, 5), (2, 2, 5)]
         wc = False
     else:
         alpha = {SENDNW, RECVNW, SEND, RECV, RESUME, CLOSE, CLONE}
-        scopes = [(0, 2, 4), (1, 2, 4)] if tier == "quick" else [(0, 2, 5), (1, 2, 5)]
+        scopes = [(0, 2, 4), (1, 2, 3)] if tier == "quick" else [(0, 2, 5), (1, 2, 5)]
         wc = True
     n_ex = 0
     for (mb, nt, dp) in scopes:
@@ -783,9 +795,12 @@ def check(prop: str, tier: str) -> int:
         n_ex += len(ex)
         runs += ex
 
+    stage_t["run_on_implementation"] = round(_time.time() - _t0, 1)
+    _t0 = _time.time()
     cases = [case_of(r) for r in runs]
     expected = [r.outs for r in runs]
     model_outs = core.run_driver(exe, cases)
+    stage_t["extracted_model_driver"] = round(_time.time() - _t0, 1)
     disagreements = []
     for r, c, e, m in zip(runs, cases, expected, model_outs):
         if e != m:
@@ -800,11 +815,14 @@ def check(prop: str, tier: str) -> int:
     monitor_hits = [(r, msg) for r in runs for (p, msg) in r.mon if p in (prop, "both")]
     other_hits = sum(1 for r in runs for (p, msg) in r.mon if p not in (prop, "both"))
 
-    sample_n = 60 if tier == "quick" else 400
-    idx = list(range(len(cases)))
+    # kernel-checked sample (vm_compute): scenarios + a random sample of the shorter cases
+    sample_n = 40 if tier == "quick" else 300
+    idx = [i for i in range(len(cases)) if len(cases[i]) <= 4 * 45]
     rng.shuffle(idx)
-    idx = idx[:sample_n]
+    idx = list(range(n_corpus, n_corpus + n_scen)) + idx[:sample_n]
+    _t0 = _time.time()
     vm_ok, vm_log = core.coq_eval_cases(prop.lower(), "MemStream", [cases[i] for i in idx], [expected[i] for i in idx])
+    stage_t["vm_compute_sample"] = round(_time.time() - _t0, 1)
 
     # ---- decide ----
     seen_msgs = set()
@@ -891,6 +909,7 @@ def check(prop: str, tier: str) -> int:
         "vm_compute_ok": vm_ok,
         "model_rejected_ops": rejected,
         "monitor_hits": len(monitor_hits),
+        "stage_seconds": stage_t,
         "samples": [{"maxbuf": runs[i].maxcode(), "ops": readable(runs[i].ops)[:30], "outs": runs[i].outs[:70]}
                     for i in idx[:2]],
     })
